@@ -353,6 +353,28 @@ def rule_r3(repo):
             elif not wired and (len(calls) != 2 or r.locals['self'].fields.get('_is_wired') is not True):
                 rr.fail('TemplateData.wire:flag', wire.where, 'wire() on fresh data: %d subset walks, flag %r afterwards (expected one walk per subset and the flag set)' % (
                     len(calls), r.locals['self'].fields.get('_is_wired')))
+    # the same for every shape of message: compressed data are wired once for all subsets, and a second wire() of any message does nothing
+    for comp, n in ((False, 1), (False, 3), (True, 1), (True, 3), (False, 0)):
+        shared = []
+        obj = Obj('TemplateData', {
+            '_is_wired': False, 'is_compressed': comp, 'n_subsets': n, 'template': Obj('BufrTemplate', {'members': []}),
+            'decoded_nodes_all_subsets': [shared] * n if comp else [[] for _ in range(n)], 'decoded_descriptors_all_subsets': [[] for _ in range(n)],
+            'decoded_values_all_subsets': [[] for _ in range(n)], 'bitmap_links_all_subsets': [{} for _ in range(n)], 'index_to_node': {}})
+        want = (1 if n else 0) if comp else n
+        rr.instance('TemplateData.wire() twice on %s data of %d subsets: %d walk(s), then none' % ('compressed' if comp else 'uncompressed', n, want))
+        walks = []
+        for attempt in (1, 2):
+            it = W(repo, 'TemplateData')
+            res = it.run_function(wire, lambda: {'self': obj}, self_class='TemplateData')
+            if len(res) != 1 or not res[0].ok:
+                rr.fail('TemplateData.wire:raises', wire.where, 'wire() on %s data of %d subsets: %s' % ('compressed' if comp else 'uncompressed', n, [r.describe() for r in res]))
+                break
+            walks.append(len([e for e in res[0].events if e[0] == 'wire_members']))
+        else:
+            if walks != [want, 0]:
+                rr.fail('TemplateData.wire:twice', wire.where, 'wire() called twice on %s data of %d subsets walks the template %s times (expected %s): the second call appends the '
+                        'node tree once more, and renderings and queries show every node twice' % ('compressed' if comp else 'uncompressed', n, walks, [want, 0]),
+                        witness={'compressed': comp, 'n_subsets': n})
     # a wire() that fails (a template the wirer cannot follow) must not leave the data marked as wired: the next rendering or query of
     # the same message would silently work on a half-built tree instead of reporting the same error
 
